@@ -110,6 +110,9 @@ impl Check for C14 {
         }
         if s.parens_added > 0 {
             labels.add("redundant-parens");
+            if s.atom_parens > 0 {
+                labels.add("redundant-parens-around-atom");
+            }
         }
         if s.comments_added > 0 {
             labels.add("comments");
